@@ -31,7 +31,10 @@ REACTIONS.update({
                                      allowed_intermediate_particles=["b(1)(1235)+"], allowed_interaction_types=["strong"]),
 })  # fmt: skip
 
-OPAQUE = ("PhaseSpaceFactorSWave", "EqualMassPhaseSpaceFactor")
+# C13 is about WHICH builder is attached with WHICH variables; the algebra inside the lineshape classes is C12's.
+# Every lineshape node is therefore opaque: one complex unknown per structurally distinct node (class + arguments).
+OPAQUE = ("PhaseSpaceFactorSWave", "EqualMassPhaseSpaceFactor", "PhaseSpaceFactor", "PhaseSpaceFactorAbs", "PhaseSpaceFactorComplex",
+          "EnergyDependentWidth", "FormFactor", "BlattWeisskopfSquared", "BreakupMomentumSquared")
 
 
 def builders():
@@ -111,7 +114,8 @@ def run(config, tier, seed):
     for t in reaction.transitions:
         for n in t.topology.nodes:
             state[node_key(t, n)] = "none"
-    resonances = sorted({t.states[node_decay(t.topology, n)[0]].particle.name for t in reaction.transitions for n in t.topology.nodes})
+    initial = {t.states[i].particle.name for t in reaction.transitions for i in t.topology.incoming_edge_ids}
+    resonances = sorted({t.states[node_decay(t.topology, n)[0]].particle.name for t in reaction.transitions for n in t.topology.nodes} - initial)
     script = config["script"]
     for kind, target, bkey in script:
         if kind == "name":
@@ -131,10 +135,11 @@ def run(config, tier, seed):
                     if t.states[node_decay(t.topology, n)[0]].particle.name == name:
                         state[node_key(t, n)] = bkey
         else:  # one specific decay
-            ti, which = target
-            t = reaction.transitions[ti % len(reaction.transitions)]
-            nodes = sorted(t.topology.nodes)
-            n = nodes[which % len(nodes)]
+            res_idx, which = target  # the which-th decay node whose parent is resonance number res_idx
+            name = resonances[res_idx % len(resonances)]
+            cands = [(t_, n_) for t_ in reaction.transitions for n_ in sorted(t_.topology.nodes)
+                     if t_.states[node_decay(t_.topology, n_)[0]].particle.name == name]  # fmt: skip
+            t, n = cands[which % len(cands)]
             sel = TwoBodyDecay.from_transition(t, n) if kind == "decay" else (t, n)
             b1.dynamics.assign(sel, B[bkey])
             state[node_key(t, n)] = bkey
@@ -172,25 +177,35 @@ def run(config, tier, seed):
         label = f"chain {name}: with dynamics == without * selected lineshapes"
         obs += identity_obligations(label, V1, tr(a0 * chosen))
         pairs[label] = (a1, a0 * chosen)
-    # intensity with the reference helicity formula
-    groups: dict = {}
-    seen = set()
-    for t in reaction.transitions:
-        name = "A_{" + b0.naming.generate_amplitude_name(t) + "}"
-        comp = m0.components[name]
-        coeff = sp.Mul(*sorted((s_ for s_ in comp.free_symbols if is_coeff(s_)), key=str))
-        kappa = comp.as_coeff_Mul()[0]
-        kappa = int(kappa) if kappa in (1, -1) else 1
-        for s_ in symmetrised(t):
-            ident = (coeff, tuple(sorted((i, str(st)) for i, st in s_.states.items())), tuple(sorted((i, e.originating_node_id, e.ending_node_id) for i, e in s_.topology.edges.items())))
-            if ident in seen:
-                continue
-            seen.add(ident)
-            groups.setdefault(outer_key(t), []).append(kappa * coeff * chain_amplitude(s_, canonical=canonical, lineshape=lineshape))
-    ref_intensity = sp.Add(*[sp.Abs(sp.Add(*terms)) ** 2 for terms in groups.values()])
-    label = "intensity == helicity formula with the selected lineshapes"
-    obs += identity_obligations(label, tr(m1.expression), tr(ref_intensity))
-    pairs[label] = (m1.expression, ref_intensity)
+    # every term of every amplitude definition (incl. the copies for permuted identical particles) ==
+    # the corresponding term without dynamics * the lineshapes of ITS OWN nodes
+    from checks.c02 import META, match_terms, reference_groups, term_list
+
+    groups, _info = reference_groups(reaction, b0, m0, canonical)
+    meta = META[id(groups)]
+    flat_terms = [(key, q) for key, terms in groups.items() for q in range(len(terms))]
+    all_ref = [groups[key][q] for key, q in flat_terms]
+    for A, def0 in m0.amplitudes.items():
+        if def0 == 0 or A not in m1.amplitudes:
+            continue
+        args0, args1 = term_list(def0), term_list(m1.amplitudes[A])
+        res0, _ = match_terms(ctx, tr, args0, all_ref)
+        expected = []
+        for a0, hit in zip(args0, res0):
+            if hit is None:
+                raise Unsupported(f"term without dynamics is not a reference chain (property C02): {str(a0)[:80]}")
+            key, q = flat_terms[hit]
+            s_ = meta[key][q]
+            expected.append(a0 * sp.Mul(*[lineshape(s_, n) for n in sorted(s_.topology.nodes)]))
+        res1, used = match_terms(ctx, tr, args1, expected)
+        for a1, hit in zip(args1, res1):
+            target = expected[hit] if hit is not None else next((e for q, e in enumerate(expected) if q not in used), expected[0])
+            label = f"amplitude {A}: term with dynamics == term without * lineshapes of its own nodes: {str(a1)[:50]}"
+            obs += identity_obligations(label, tr(a1), tr(target))
+            pairs[label] = (a1, target)
+        ok = None not in res1 and len(used) == len(expected)
+        out.append(Result(name=f"amplitude {A}: one-to-one correspondence of terms with and without dynamics", kind="ground", status="ok" if ok else "fail",
+                          config=config["name"], replay={"reproduced": not ok, "terms": [len(args1), len(expected)]}))  # fmt: skip
     # ---- ground side-checks: defaults
     got = {str(k_): v for k_, v in m1.parameter_defaults.items()}
     bad = {k_: (got.get(k_), sorted(map(str, v))) for k_, v in defaults_expected.items() if len(v) != 1 or got.get(k_) != next(iter(v))}
@@ -219,8 +234,9 @@ def configs(tier):
         "name:uf": [("name", 0, "uf"), ("name", 1, "uf")],
         "name:bw_ff": [("name", 0, "bw_ff"), ("name", 1, "bw")],
         "decay-then-name": [("decay", (0, 1), "uf"), ("name", 0, "uf2")],
-        "name-then-decay": [("name", 0, "uf"), ("name", 1, "uf"), ("decay", (1, 1), "uf2")],
-        "tuple+reassign": [("tuple", (2, 1), "uf"), ("tuple", (2, 1), "uf2"), ("particle", 1, "ff")],
+        "name-then-decay": [("name", 0, "uf"), ("name", 1, "uf"), ("decay", (0, 1), "uf2")],
+        "decay-name-decay": [("decay", (1, 0), "uf2"), ("name", 1, "bw"), ("decay", (1, 2), "uf")],
+        "tuple+reassign": [("tuple", (0, 1), "uf"), ("tuple", (0, 1), "uf2"), ("particle", 1, "ff")],
         "analytic": [("name", 0, "analytic"), ("name", 1, "uf")],
     }
     out = []
@@ -230,7 +246,7 @@ def configs(tier):
     for r in reactions:
         for formalism in ("helicity", "canonical-helicity"):
             for sname, sc in scripts.items():
-                if tier == "quick" and (formalism == "helicity") == (sname in ("name:bw_ff", "tuple+reassign", "analytic")):
+                if tier == "quick" and (formalism == "helicity") == (sname in ("name:bw_ff", "tuple+reassign", "analytic", "decay-name-decay")):
                     continue
                 out.append({"name": f"{r}|{formalism}|{sname}", "reaction": r, "formalism": formalism, "script": sc})
     return out
@@ -246,7 +262,7 @@ def main():
     chk.finish(
         functions=[h.DynamicsSelector.assign, h.DynamicsSelector.__getitem__, h._generate_kinematic_variable_set, h._generate_kinematic_variables,
                    lorentz.get_invariant_mass_symbol, b.RelativisticBreitWignerBuilder.__call__, b.create_non_dynamic_with_ff],  # fmt: skip
-        bounds={"reactions": "3 quick / 6 thorough x 2 formalisms", "scripts": "6 assignment histories of <= 3 assignments incl. re-assignment, by name / Particle / TwoBodyDecay / tuple"},
+        bounds={"reactions": "3 quick / 6 thorough x 2 formalisms", "scripts": "7 assignment histories of <= 3 assignments incl. re-assignment, by name / Particle / TwoBodyDecay / tuple"},
         assumptions=[
             "custom builders are uninterpreted functions of (m_parent, m_d1, m_d2, L, theta, phi) (Ackermannised)",
             "'one specific decay' = equal parent and children states (ids, particles, helicities) and interaction",
